@@ -9,6 +9,8 @@ import (
 	"net/netip"
 	"sort"
 	"strings"
+	"sync"
+	"sync/atomic"
 
 	"github.com/Jigsaw-Code/outline-ss-server/service"
 )
@@ -97,5 +99,69 @@ func c01Interleave(ctx *Ctx, shard int) {
 	}
 	if len(terms) > 0 {
 		ctx.WriteCases(shard, "Corr.C01I", "icase", terms)
+	}
+}
+
+// snapshotsUnderMarks: on a fixed key list, one goroutine keeps moving the last-client-IP hint of one
+// key between two addresses while others take snapshots for one of them: every snapshot is the
+// result of some sequential order of the calls, so it contains every key exactly once (a key the
+// snapshot misses is a configured key its client cannot authenticate with).
+func snapshotsUnderMarks(ctx *Ctx, sig string) {
+	const nKeys = 5
+	rounds := 200000
+	if ctx.Thorough() {
+		rounds = 2000000
+	}
+	l := list.New()
+	for i := 0; i < nKeys; i++ {
+		e := service.MakeCipherEntry(idStr(i), mkKey(0, i), secretStr(i))
+		l.PushBack(&e)
+	}
+	cl := service.NewCipherList()
+	cl.Update(l)
+	x := netip.AddrFrom4([4]byte{10, 0, 0, 1})
+	y := netip.AddrFrom4([4]byte{10, 0, 0, 2})
+	third := cl.SnapshotForClientIP(x)[3]
+	var stop int32
+	var mwg, swg sync.WaitGroup
+	mwg.Add(1)
+	go func() {
+		defer mwg.Done()
+		for i := 0; atomic.LoadInt32(&stop) == 0; i++ {
+			if i%2 == 0 {
+				cl.MarkUsedByClientIP(third, x)
+			} else {
+				cl.MarkUsedByClientIP(third, y)
+			}
+		}
+	}()
+	var bad int64
+	var first atomic.Value
+	for g := 0; g < 4; g++ {
+		swg.Add(1)
+		go func() {
+			defer swg.Done()
+			for i := 0; i < rounds/4 && atomic.LoadInt64(&bad) == 0; i++ {
+				snap := cl.SnapshotForClientIP(x)
+				seen := map[*list.Element]bool{}
+				for _, e := range snap {
+					if e != nil {
+						seen[e] = true
+					}
+				}
+				if len(snap) != nKeys || len(seen) != nKeys {
+					if atomic.AddInt64(&bad, 1) == 1 {
+						first.Store(fmt.Sprintf("a snapshot of a %d-key list has %d entries, %d distinct", nKeys, len(snap), len(seen)))
+					}
+				}
+			}
+		}()
+	}
+	swg.Wait()
+	atomic.StoreInt32(&stop, 1)
+	mwg.Wait()
+	ctx.Count("snapshots-under-marks:runs")
+	if atomic.LoadInt64(&bad) > 0 {
+		ctx.Monitor(sig, "while one key's last-client hint was being moved between two addresses, "+first.Load().(string)+" (no sequential order of the calls gives that)", map[string]interface{}{"keys": nKeys})
 	}
 }
